@@ -208,4 +208,19 @@ def Result.touched : Result → List String
   | .evaluated (.nameError _ t) => t
   | _ => []
 
+/-! ### histories: several calls in one process -/
+
+/-- one call `evaluator(text, **variables)`: the whitelist of the evaluator called, the parsed
+text and the supplied variables -/
+structure Call where
+  wl : List String
+  tree : Option PyExpr
+  vars : Vars
+
+def runCall (cfg : EvalCfg) (c : Call) : Result := run c.wl cfg c.tree c.vars
+
+/-- a history of calls made one after the other in the same process: `restricted_evaluator`
+keeps no state, every call is answered on its own -/
+def runSeq (cfg : EvalCfg) (calls : List Call) : List Result := calls.map (runCall cfg)
+
 end CylcModel.REval
